@@ -475,15 +475,62 @@ func worldC18(w *World) {
 		user, path string
 		res        *gaeResult
 		stored     string
+		round      int
+		tok        string
 	}
+	// what the registrations looked like when a round of requests was issued
+	type roundState struct {
+		backends []*gaeBackend
+		lastPoll map[string]time.Duration
+		start    time.Duration
+	}
+	var rounds []roundState
 	var reqs []*ureq
 	for i := 0; i < nReq; i++ {
-		reqs = append(reqs, &ureq{user: users[t.Choice(2, "user")], path: []string{"/", "/a", "/a/b", "/a/b/c/d", "/abc", "/b/x", "/zzz", "/a/", "/x/y/z/w"}[t.Choice(9, "path")]})
+		reqs = append(reqs, &ureq{tok: fmt.Sprintf("q%d", i), user: users[t.Choice(2, "user")], path: []string{"/", "/a", "/a/b", "/a/b/c/d", "/abc", "/b/x", "/zzz", "/a/", "/x/y/z/w"}[t.Choice(9, "path")]})
+	}
+	// a second round: while the first requests are still waiting, the registrations
+	// change and the same users ask for the same paths again
+	change := t.Pick("change", 3, 1, 1)
+	var added *gaeBackend
+	delIdx := -1
+	switch change {
+	case 1:
+		added = &gaeBackend{BackendID: "be-new", BackendUser: "agent@svc.example", EndUser: []string{users[0], users[1], "allUsers"}[t.Choice(3, "newuser")]}
+		added.PathPrefixes = []string{reqs[t.Choice(nReq, "newprefix")].path}
+	case 2:
+		delIdx = t.Choice(nB, "delete")
+	}
+	if change != 0 && !lookupFault {
+		for i := 0; i < nReq; i++ {
+			reqs = append(reqs, &ureq{tok: fmt.Sprintf("q%d", nReq+i), user: reqs[i].user, path: reqs[i].path, round: 1})
+		}
+	}
+	snapshot := func(at time.Duration, lastPoll map[string]time.Duration) {
+		lp := map[string]time.Duration{}
+		for k, v := range lastPoll {
+			lp[k] = v
+		}
+		rounds = append(rounds, roundState{backends: append([]*gaeBackend(nil), backends...), lastPoll: lp, start: at})
 	}
 	w.Sample = map[string]interface{}{"backends": backends, "plans": fmt.Sprintf("%+v", plans), "requests": fmt.Sprintf("%d", nReq)}
 	w.K.Horizon = 3 * time.Hour
 	lastPoll := map[string]time.Duration{}
 	var reqStart time.Duration
+	// which backend holds each request: the stored entity's bytes contain the token
+	stored := map[string]string{}
+	collectStored := func() {
+		for b, ids := range requestEntities(plat) {
+			for _, id := range ids {
+				r := gaeCall(w, plat, "agent", simplatform.Identity{OAuthEmail: "agent@svc.example"}, "GET", "/agent/request", agentHdr(b, id), nil)
+				for _, q := range reqs {
+					if bytes.Contains(r.Body, []byte("tok="+q.tok+" ")) {
+						stored[q.tok] = b
+					}
+				}
+			}
+		}
+	}
 	w.K.Spawn("gae", func() {
 		for _, b := range backends {
 			body, _ := json.Marshal(b)
@@ -539,41 +586,67 @@ func worldC18(w *World) {
 				return nil
 			}
 		}
-		// all user requests at the same instant (each then waits up to 30 s for a response)
+		// all user requests of a round at the same instant (each then waits up to 30 s for a response)
 		var rw sync.WaitGroup
-		for i, q := range reqs {
-			i, q := i, q
-			rw.Add(1)
-			go func() {
-				defer rw.Done()
-				before := requestEntities(plat)
-				_ = before
-				q.res = gaeCall(w, plat, "default", simplatform.Identity{UserEmail: q.user}, "GET", fmt.Sprintf("%s?tok=q%d", q.path, i), nil, nil)
-			}()
+		issue := func(round int) {
+			for _, q := range reqs {
+				q := q
+				if q.round != round {
+					continue
+				}
+				rw.Add(1)
+				go func() {
+					defer rw.Done()
+					q.res = gaeCall(w, plat, "default", simplatform.Identity{UserEmail: q.user}, "GET", fmt.Sprintf("%s?tok=%s", q.path, q.tok), nil, nil)
+				}()
+			}
+		}
+		snapshot(reqStart, lastPoll)
+		issue(0)
+		if change != 0 && !lookupFault {
+			time.Sleep(5 * time.Second)
+			collectStored() // a deleted backend takes its stored requests with it
+			if added != nil {
+				body, _ := json.Marshal(added)
+				if r := gaeCall(w, plat, "api", adminID, "POST", "/api/backends", nil, body); r.Status != 200 {
+					w.Violation("setup", "could not register backend %s: %d %s", added.BackendID, r.Status, r.Body)
+				}
+				backends = append(backends, added)
+				lastPoll[added.BackendID] = w.K.Now() + 30*time.Second
+				wg.Add(1)
+				go func() {
+					defer wg.Done()
+					gaeCall(w, plat, "agent", simplatform.Identity{OAuthEmail: added.BackendUser}, "GET", "/agent/pending", agentHdr(added.BackendID, ""), nil)
+				}()
+			} else {
+				del := backends[delIdx]
+				if r := gaeCall(w, plat, "api", adminID, "DELETE", "/api/backends/"+del.BackendID, nil, nil); r.Status != 200 {
+					w.Violation("setup", "could not delete backend %s: %d %s", del.BackendID, r.Status, r.Body)
+				}
+				backends = append(append([]*gaeBackend(nil), backends[:delIdx]...), backends[delIdx+1:]...)
+			}
+			time.Sleep(5 * time.Second)
+			snapshot(w.K.Now(), lastPoll)
+			issue(1)
+			w.Probe("registrations_changed_between_lookups")
 		}
 		rw.Wait()
 		wg.Wait()
 		w.K.Stop()
 	})
 	w.OnCheck(func() {
-		// which backend holds each request: the stored entity's bytes contain the token
-		stored := map[string]string{}
-		for b, ids := range requestEntities(plat) {
-			for _, id := range ids {
-				r := gaeCall(w, plat, "agent", simplatform.Identity{OAuthEmail: "agent@svc.example"}, "GET", "/agent/request", agentHdr(b, id), nil)
-				for i := range reqs {
-					if bytes.Contains(r.Body, []byte(fmt.Sprintf("tok=q%d ", i))) {
-						stored[fmt.Sprintf("q%d", i)] = b
-					}
-				}
-			}
-		}
-		for i, q := range reqs {
+		collectStored()
+		for _, q := range reqs {
 			if q.res == nil || !q.res.Done {
 				w.Violation("hang", "a user request never returned | %s %s", q.user, q.path)
 				continue
 			}
-			got := stored[fmt.Sprintf("q%d", i)]
+			got := stored[q.tok]
+			backends, lastPoll, reqStart := rounds[q.round].backends, rounds[q.round].lastPoll, rounds[q.round].start
+			roundNote := ""
+			if q.round > 0 {
+				roundNote = " (second lookup of the same user and path, after the registrations changed)"
+			}
 			// independent specification
 			match := func(b *gaeBackend) int {
 				best := -1
@@ -621,7 +694,7 @@ func worldC18(w *World) {
 					may404 = true
 				}
 			}
-			desc := fmt.Sprintf("user %s path %q; backends %s", q.user, q.path, describeBackends(backends, lastPoll, reqStart))
+			desc := fmt.Sprintf("user %s path %q%s; backends %s", q.user, q.path, roundNote, describeBackends(backends, lastPoll, reqStart))
 			if got == "" {
 				if q.res.Status != 404 {
 					w.Violation("routing", "a request that was not stored for any backend was not answered 404 | status %d; %s", q.res.Status, desc)
@@ -678,6 +751,17 @@ func worldC19(w *World) {
 		rid                     string
 		posted                  []byte
 		postStatus              int
+		// exactReq/exactResp k > 0: the stored serialised request / the posted response is
+		// exactly k * 1,000,000 bytes long (calib: an otherwise identical request whose
+		// stored length calibrates the request body size)
+		exactReq, exactResp int
+		calib               *creq
+		// after: issue this request only once that one has returned; urlTok: the token
+		// in the URL (the URL of a repeated GET equals the first one's)
+		after        *creq
+		dynReqSize   int // request body size decided at run time (calibrated)
+		urlTok       string
+		cacheControl string
 	}
 	var reqs []*creq
 	for i := 0; i < nC; i++ {
@@ -693,7 +777,47 @@ func worldC19(w *World) {
 		c.respSize = sizes[t.Pick("respsize", 2, 3, 3, 1, 2, 2, 2, 1, 1, 1)]
 		c.respond = !t.Rare(1, 6, "neveranswered")
 		c.respDelay = []time.Duration{0, time.Second, 10 * time.Second, 29 * time.Second}[t.Choice(4, "respdelay")]
+		c.urlTok = c.tok
+		if t.Rare(1, 4, "exactresp") {
+			c.exactResp = t.Range(1, 3, "exactrespk")
+		}
 		reqs = append(reqs, c)
+		if c.method == "POST" && t.Rare(1, 4, "exactreq") {
+			// a calibration twin first, then the request sized from what was stored for it
+			c.reqSize, c.respond, c.respDelay = 1000, true, 0
+			x := &creq{tok: fmt.Sprintf("x%02d", i), user: c.user, method: "POST", path: fmt.Sprintf("/r/x%02d", i), respSize: 10, respond: true, calib: c, exactReq: t.Range(1, 3, "exactreqk")}
+			x.urlTok = x.tok
+			reqs = append(reqs, x)
+		}
+		if c.method == "GET" && c.respond && t.Rare(1, 3, "repeatget") {
+			// the same user asks for the same URL again once the first answer is there
+			c.respDelay = 0
+			c.cacheControl = []string{"", "no-store", "max-age=0", "must-revalidate", "private", "no-cache", "public, max-age=60", "no-transform"}[t.Choice(8, "cachecontrol")]
+			y := &creq{tok: fmt.Sprintf("y%02d", i), user: c.user, method: "GET", path: c.path, urlTok: c.tok, respSize: 77, respond: true, after: c, cacheControl: c.cacheControl}
+			reqs = append(reqs, y)
+		}
+	}
+	// the response an agent posts for c
+	respHead := func(c *creq, n int) string {
+		cc := ""
+		if c.cacheControl != "" {
+			cc = "Cache-Control: " + c.cacheControl + "\r\n"
+		}
+		return fmt.Sprintf("HTTP/1.1 200 OK\r\nX-Echo-Token: %s\r\n%sContent-Length: %d\r\n\r\n", c.tok, cc, n)
+	}
+	mkResp := func(c *creq) []byte {
+		return append([]byte(respHead(c, c.respSize)), tokenBody(c.tok+"/resp", c.respSize)...)
+	}
+	for _, c := range reqs {
+		if c.exactResp > 0 {
+			target := c.exactResp * 1000000
+			for n := target - 200; n < target; n++ {
+				c.respSize = n
+				if len(respHead(c, n))+n == target {
+					break
+				}
+			}
+		}
 	}
 	// faults: the n-th call of a given kind fails
 	type frule struct {
@@ -835,12 +959,48 @@ func worldC19(w *World) {
 			clientsWG.Add(1)
 			go func() {
 				defer clientsWG.Done()
+				if c.after != nil {
+					for i := 0; i < 1200; i++ {
+						mu.Lock()
+						done := c.after.res != nil && c.after.res.Done
+						mu.Unlock()
+						if done {
+							break
+						}
+						time.Sleep(100 * time.Millisecond)
+					}
+				}
+				if c.calib != nil {
+					// size the body so that the stored serialised request is exactly k MB
+					var l0 int
+					for i := 0; i < 1200 && l0 == 0; i++ {
+						mu.Lock()
+						l0 = len(c.calib.fetched)
+						mu.Unlock()
+						if l0 == 0 {
+							time.Sleep(100 * time.Millisecond)
+						}
+					}
+					target := c.exactReq * 1000000
+					size := 5
+					for n := target - 2000; n < target && l0 > 0; n++ {
+						if l0-c.calib.reqSize-len(fmt.Sprint(c.calib.reqSize))+n+len(fmt.Sprint(n)) == target {
+							size = n
+						}
+					}
+					mu.Lock()
+					c.dynReqSize = size
+					mu.Unlock()
+				}
 				var b []byte
 				if c.method == "POST" {
-					b = tokenBody(c.tok+"/req", c.reqSize)
+					b = tokenBody(c.tok+"/req", max(c.reqSize, c.dynReqSize))
 				}
 				k := begin("client")
-				c.res = gaeCall(w, plat, "default", simplatform.Identity{UserEmail: c.user}, c.method, c.path+"?tok="+c.tok, http.Header{"X-Token": {c.tok}}, b)
+				res := gaeCall(w, plat, "default", simplatform.Identity{UserEmail: c.user}, c.method, c.path+"?tok="+c.urlTok, http.Header{"X-Token": {c.tok}}, b)
+				mu.Lock()
+				c.res = res
+				mu.Unlock()
 				note(k, c.res)
 			}()
 		}
@@ -876,7 +1036,7 @@ func worldC19(w *World) {
 						}
 						var c *creq
 						for _, x := range reqs {
-							if bytes.Contains(fr.Body[:min(len(fr.Body), 400)], []byte("tok="+x.tok+" ")) {
+							if bytes.Contains(fr.Body[:min(len(fr.Body), 600)], []byte("X-Token: "+x.tok+"\r\n")) {
 								c = x
 							}
 						}
@@ -892,8 +1052,7 @@ func worldC19(w *World) {
 							return
 						}
 						time.Sleep(c.respDelay)
-						resp := []byte(fmt.Sprintf("HTTP/1.1 200 OK\r\nX-Echo-Token: %s\r\nContent-Length: %d\r\n\r\n", c.tok, c.respSize))
-						resp = append(resp, tokenBody(c.tok+"/resp", c.respSize)...)
+						resp := mkResp(c)
 						if bothVictim >= 0 && reqs[bothVictim] == c {
 							fmu.Lock()
 							armBoth = 2
@@ -949,6 +1108,9 @@ func worldC19(w *World) {
 			}
 		}
 		for _, c := range reqs {
+			if c.dynReqSize > 0 {
+				c.reqSize = c.dynReqSize
+			}
 			name := fmt.Sprintf("%s %s (req %d bytes, resp %d bytes)", c.method, c.path, c.reqSize, c.respSize)
 			if c.res == nil || !c.res.Done {
 				w.Violation("hang", "a client request never returned | %s", name)
@@ -968,6 +1130,9 @@ func worldC19(w *World) {
 				if c.reqSize >= 999999 {
 					w.Probe("request_across_part_limit")
 				}
+				if c.exactReq > 0 && len(c.fetched)%1000000 == 0 {
+					w.Probe("request_exact_multiple_of_part_size")
+				}
 			}
 			st := c.res.Status
 			switch {
@@ -981,6 +1146,12 @@ func worldC19(w *World) {
 					if c.respSize >= 999999 {
 						w.Probe("response_across_part_limit")
 					}
+					if c.exactResp > 0 && len(c.posted)%1000000 == 0 {
+						w.Probe("response_exact_multiple_of_part_size")
+					}
+					if c.after != nil && c.cacheControl != "" {
+						w.Probe("repeated_get_not_replayed")
+					}
 					w.Probe("response_relayed")
 					break
 				}
@@ -988,7 +1159,7 @@ func worldC19(w *World) {
 				cachedOK := false
 				if c.method == "GET" {
 					for _, o := range reqs {
-						if o != c && o.tok == tok && o.method == "GET" && o.user == c.user && o.path == c.path {
+						if o != c && o.tok == tok && o.method == "GET" && o.user == c.user && o.path == c.path && o.urlTok == c.urlTok && o.cacheControl == "" {
 							cachedOK = true
 						}
 					}
